@@ -50,6 +50,47 @@ def run(ctx: Ctx) -> None:
                     ctx.check(good, "M1", construct, loc_fv, f"quote {q}: {shown}", f"{k.upper()} with a value of class {vc.name} is written as {shown!r} (quote {q}); required: {want_desc}")
     ctx.units.update({"slot_class_quote_cells": n, "pai_evaluations": PM.evals})
 
+    # ---- M3 lookup follows the enclosing object ------------------------------------------------------
+    ctx.rule("M3", "a keyword is formatted by the schema of its *own* enclosing object wherever it stands: printed after a child block that has a keyword of the same name with a different schema, its line is the same as without the child", 10)
+    from .. import layout as _layout
+
+    L_ = _layout.Layout(e)
+    edges = []
+    for t in S.types():
+        for k, node in S.slots(t).items():
+            for a in S.alternatives(node):
+                kids = [a] if a.cls == "OBJECT" else (a.items or [] if a.cls == "LIST" else [])
+                for x in kids:
+                    if getattr(x, "cls", None) == "OBJECT" and x.obj_type and x.obj_type in S.type_files and x.obj_type != t:
+                        edges.append((t, k, x.obj_type, a.cls == "LIST"))
+    n3 = 0
+    for parent, ckey, child, is_list in sorted(set(edges)):
+        ps, cs = S.slots(parent), S.slots(child)
+        for k in sorted(set(ps) & set(cs)):
+            if k in special_keys or ps[k] == cs[k]:
+                continue
+            classes = [vc for vc in printer.classes_for(S, parent, k, ps[k]) if vc.expect not in ("RAISE", "LIST")]
+            for vc in classes[:4]:
+                def line_of(with_child):
+                    items = [("__type__", parent)]
+                    if with_child:
+                        ch = _layout.cdict([("__type__", child)])
+                        items.append((ckey, [ch] if is_list else ch))
+                    items.append((k, vc.make('"')))
+                    outs = L_.format_lines(lambda: _layout.cdict(items), lambda: L_.sym_options(end_comment=False, indent=0, spacer=" ", newlinechar="\n"), level=0, fork=False)
+                    if len(outs) != 1 or outs[0][1] != "return":
+                        return None
+                    for ln in outs[0][2]:
+                        t_ = pai.as_sstr(ln)
+                        if t_.pieces and isinstance(t_.pieces[0], str) and t_.pieces[0].startswith(k.upper() + " "):
+                            return t_
+                    return None
+
+                a_, b_ = line_of(False), line_of(True)
+                n3 += 1
+                ctx.check(a_ is not None and a_ == b_, "M3", f"{parent}.{k} after a {child} block | {vc.name}", loc_fv, f"{a_.describe() if a_ is not None else None}", f"{k.upper()} of a {parent.upper()} is written as {b_.describe() if b_ is not None else None!r} when it follows a {child.upper()} block but as {a_.describe() if a_ is not None else None!r} otherwise: the child's schema is used for the parent's keyword")
+    ctx.units["shared_keyword_cells"] = n3
+
     # ---- M2 special writers -----------------------------------------------------------------------
     ctx.rule("M2", "CONFIG, repeated keys, key/value blocks and PROJECTION write their strings quoted (AUTO bare), keys of CONFIG upper-cased", 8)
     I = e.interp(allow_fork=False)
